@@ -72,6 +72,7 @@ struct Plan {
     must_fail: bool,
     probe: Vec<u32>,
     label: String,
+    in_call: bool,
 }
 
 fn smt_advice(smt: &Smt) -> (MerkleStore, Vec<([u64; 4], Vec<u64>)>) {
@@ -88,7 +89,7 @@ fn smt_advice(smt: &Smt) -> (MerkleStore, Vec<([u64; 4], Vec<u64>)>) {
 
 fn build(sc: &Value) -> Plan {
     let kind = sc["kind"].as_str().unwrap_or("");
-    let mut p = Plan { source: String::new(), stack_inputs: vec![], advice_stack: vec![], store: None, map: vec![], expect_events: vec![], expect_mem: vec![], expect_final: None, must_fail: false, probe: vec![], label: kind.to_string() };
+    let mut p = Plan { source: String::new(), stack_inputs: vec![], advice_stack: vec![], store: None, map: vec![], expect_events: vec![], expect_mem: vec![], expect_final: None, must_fail: false, probe: vec![], label: kind.to_string(), in_call: false };
     match kind {
         "truncate" => {
             let inputs = vm::u64s(&sc["inputs"]);
@@ -133,8 +134,12 @@ fn build(sc: &Value) -> Plan {
                 }
             }
             s.push_str(&format!("    push.{}.{}.{} exec.mem::memcopy\n    push.0 emit.1 drop\nend\n", dst_ptr, src_ptr, n));
+            // the destination receives the words the source region held before the call (regions that
+            // overlap are only generated with dst <= src, where this is what a word-by-word copy in
+            // ascending order delivers)
+            let orig = mem.clone();
             for i in 0..n {
-                let v = mem.get(&(src_ptr + i)).cloned().unwrap_or([0; 4]);
+                let v = orig.get(&(src_ptr + i)).cloned().unwrap_or([0; 4]);
                 mem.insert(dst_ptr + i, v);
             }
             p.source = s;
@@ -265,6 +270,16 @@ fn build(sc: &Value) -> Plan {
         }
     }
     p.probe = p.expect_mem.iter().filter(|(a, _)| *a < (1 << 32)).map(|(a, _)| *a as u32).collect();
+    if sc["in_call"].as_bool().unwrap_or(false) && kind != "truncate" {
+        // the same scenario inside a `call`ed procedure: a fresh context with its own memory
+        if let Some(at) = p.source.find("begin\n") {
+            let mut s = p.source.clone();
+            s.replace_range(at..at + 6, "proc.in_ctx\n");
+            s.push_str("\nbegin\n    call.in_ctx\nend\n");
+            p.source = s;
+            p.in_call = true;
+        }
+    }
     p
 }
 
@@ -332,11 +347,21 @@ fn judge(out: &mut RunOut, p: &Plan, r: &Outcome, host: &SimHost, relaxed: bool,
             // memory at the last observation point
             if let Some(last) = events.last() {
                 for (a, want) in &p.expect_mem {
-                    if let Some((_, _, got)) = last.mem.iter().find(|(c, aa, _)| *c == 0 && *aa as u64 == *a) {
+                    if let Some((_, _, got)) = last.mem.iter().find(|(c, aa, _)| *c == last.ctx && *aa as u64 == *a) {
                         let g = got.unwrap_or([0; 4]);
                         if g != *want {
-                            out.violate(format!("C18/{}/memory", p.label), format!("[{tag}] memory at {} is {:?}, native model {:?}", a, g, want));
+                            out.violate(format!("C18/{}/memory", p.label), format!("[{tag}] memory at {} (context {}) is {:?}, native model {:?}", a, last.ctx, g, want));
                             break;
+                        }
+                    }
+                    if last.ctx != 0 {
+                        out.count("probe:memory-compared-in-callee-context");
+                        // executed inside a call: the root context's memory stays untouched
+                        if let Some((_, _, Some(g))) = last.mem.iter().find(|(c, aa, _)| *c == 0 && *aa as u64 == *a) {
+                            if *g != [0; 4] {
+                                out.violate(format!("C18/{}/memory-of-root-context-written", p.label), format!("[{tag}] root context memory at {} is {:?} although everything ran in context {}", a, g, last.ctx));
+                                break;
+                            }
                         }
                     }
                 }
@@ -373,7 +398,7 @@ impl Prop for C18 {
         }
     }
     fn rule(&self) -> &'static str {
-        "one run = one stdlib scenario executed by the real VM against the simulated host: truncate_stack at depths 16..60; memcopy over (pointer, length) pairs incl. zero length and adjacent regions; pipe_words_to_memory / pipe_preimage_to_memory for 1..9 words (valid and corrupted commitment); a history of 3-12 SMT set/get operations (insert, update, remove = set to the empty word, absent keys) on one evolving tree held by the host; a history of MMR add/get/pack+unpack operations. After every operation the VM's observable result (values, old values, roots, peaks, hashes, pointers, memory of the root context) must equal the native model (miden-crypto Smt/Mmr, RPO, a word memory map). Fault leg: the host loses or corrupts one advice-map entry / store node / path at a request placed by a dry run: the run may fail, but whatever it reports must still equal the native model. One evaluation = one execution; non-trivial = all observation points of the honest run were compared; distinct = digest of the scenario."
+        "one run = one stdlib scenario executed by the real VM against the simulated host: truncate_stack at depths 16..60; memcopy over (pointer, length) pairs incl. zero length, adjacent regions and regions overlapping with dst <= src; pipe_words_to_memory / pipe_preimage_to_memory for 1..9 words (valid and corrupted commitment); a history of 3-12 SMT set/get operations (insert, update, remove = set to the empty word, absent keys) on one evolving tree held by the host; a history of MMR add/get/pack+unpack operations; one third of the memcopy / pipe / SMT / MMR scenarios run inside a `call`ed procedure (own context: its memory is compared, the root context must stay untouched). After every operation the VM's observable result (values, old values, roots, peaks, hashes, pointers, memory of the root context) must equal the native model (miden-crypto Smt/Mmr, RPO, a word memory map). Fault leg: the host loses or corrupts one advice-map entry / store node / path at a request placed by a dry run: the run may fail, but whatever it reports must still equal the native model. One evaluation = one execution; non-trivial = all observation points of the honest run were compared; distinct = digest of the scenario."
     }
     fn generate(&self, rng: &mut Rng, _tier: Tier, _index: u64) -> Value {
         let mut sc = match rng.below(10) {
@@ -386,8 +411,10 @@ impl Prop for C18 {
                 let n = *rng.pick(&[0u64, 1, 2, 3, 5, 8]);
                 let src = *rng.pick(&[0u64, 100, 4000, (1 << 32) - 20]);
                 let high = src > (1 << 31);
-                let dst = match rng.below(3) {
-                    0 => src + n + 1,        // right after the source region
+                let dst = match rng.below(4) {
+                    // overlapping, shifted down by 0..n-1 words (dst <= src)
+                    3 if n >= 1 && src >= n => src - rng.below(n),
+                    0 | 3 => src + n + 1, // right after the source region
                     1 if !high => src + n + 1 + rng.range(1, 50),
                     _ if high => src - 1000,
                     _ => src + 1000,
@@ -444,6 +471,9 @@ impl Prop for C18 {
                 json!({"kind": "mmr", "ptr": *rng.pick(&[1000u64, 5, 123456]), "ops": ops})
             }
         };
+        if sc["kind"] != "truncate" && rng.chance(1, 3) {
+            sc["in_call"] = json!(true);
+        }
         // host faults placed on primitive requests that really occur (dry run)
         let p = build(&sc);
         let spec = ProgSpec { source: p.source.clone(), stdlib: true, ..Default::default() };
@@ -549,6 +579,6 @@ impl Prop for C18 {
         vec!["host persistence and faults (lost / corrupted map entries, nodes, paths)", "native models: miden-crypto Smt and Mmr, RPO hash_elements, memory map"]
     }
     fn assumptions(&self) -> Vec<&'static str> {
-        vec!["SMT keys are chosen with pairwise different most significant elements (leaves with several pairs are documented as unimplemented)", "memcopy is only exercised on non-overlapping regions", "RPO collision resistance for the fault leg"]
+        vec!["SMT keys are chosen with pairwise different most significant elements (leaves with several pairs are documented as unimplemented)", "memcopy on overlapping regions is only exercised with dst <= src (ascending copy = memmove semantics); dst > src inside the source region is not judged", "RPO collision resistance for the fault leg"]
     }
 }
